@@ -29,8 +29,35 @@ PROPS = {
             "thorough": {"runs": 600000, "budget_s": 1100, "batch": 250, "det_pool": 200, "det_fresh": 40}},
 }
 
+class ProbeRecorder(RF.AbstractRecorder):
+    """A user-written recorder (the package documents that detectors and recorders can be combined
+    freely): it keeps what the detector reports through record_values / record_index / report_chunk."""
+
+    def __init__(self):
+        super().__init__()
+        self.vf, self.vt, self.xf, self.xt = [], [], [], []
+        self.calls = []
+
+    def record_values(self, values_from, values_to):
+        a, b = [float(x) for x in values_from], [float(x) for x in values_to]
+        self.calls.append(("values", len(a), len(b)))
+        self.vf += a
+        self.vt += b
+
+    def record_index(self, index_from, index_to):
+        a, b = [float(x) for x in index_from], [float(x) for x in index_to]
+        self.calls.append(("index", len(a), len(b)))
+        self.xf += a
+        self.xt += b
+
+    values_from = property(lambda self: self.vf)
+    values_to = property(lambda self: self.vt)
+    index_from = property(lambda self: self.xf)
+    index_to = property(lambda self: self.xt)
+
+
 DETS = {"tp": RF.ThreePointDetector, "fp": RF.FourPointDetector, "fkm": RF.FKMDetector}
-RECS = {"full": RF.FullRecorder, "value": RF.LoopValueRecorder}
+RECS = {"full": RF.FullRecorder, "value": RF.LoopValueRecorder, "probe": ProbeRecorder}
 
 
 # ------------------------------------------------------------------ source
@@ -241,9 +268,16 @@ def observe(d, det, rec):
         if det != "fkm":
             o["ridx"] = [float(x) for x in d.residual_index]
             o["chunks"] = [int(x) for x in r.chunks]
-            if rec == "full":
+            if rec in ("full", "probe"):
                 o["ifrom"] = [float(x) for x in r.index_from]
                 o["ito"] = [float(x) for x in r.index_to]
+        if rec == "probe":
+            # every report must be self-consistent: as many 'to' as 'from'; indices for exactly the reported loops
+            for kind_, n1, n2 in r.calls:
+                if n1 != n2:
+                    o["protocol"] = [kind_, n1, n2]
+            if det != "fkm" and len(o["ifrom"]) != len(o["from"]):
+                o["protocol"] = ["index-count", len(o["ifrom"]), len(o["from"])]
         return o
     except Exception as e:     # noqa
         raise RealCodeError("observe", e)
@@ -292,7 +326,7 @@ def generate(prop, rng, tier):
     reps = []
     for _ in range(n_rep):
         det = rng.choice(["tp", "fp", "fkm"])
-        reps.append({"det": det, "rec": rng.choice(["full", "full", "value"]),
+        reps.append({"det": det, "rec": rng.choice(["full", "full", "value", "probe"]),
                      "cuts": gen_cuts(rng, sig),
                      "container": rng.choice(["ndarray", "ndarray", "ndarray", "list", "series", "strided", "readonly", "int", "int", "f32"])})
     order = []
@@ -415,7 +449,7 @@ def _execute(prop, trace):
         if last or st["k"] == 1:
             # the user may look at the collective at any time (also early): it must agree with the arrays
             try:
-                bad = collective_consistent(st["d"], o, rec) if det != "fkm" or rec == "value" else None
+                bad = collective_consistent(st["d"], o, rec) if rec != "probe" and (det != "fkm" or rec == "value") else None
             except RealCodeError as e:
                 out.violate("exception", "%s/%s" % (det, e.where), {"replica": r, "consumed": b, "type": e.exc_type, "msg": e.msg})
                 st["dead"] = True
@@ -504,7 +538,7 @@ def check_c01(out, st, rp, r, prefix, o, flush):
     for L in lens:
         offs.append(offs[-1] + L)
     pairs = [("ridx", "res")]
-    if rec == "full":
+    if rec in ("full", "probe"):
         pairs += [("ifrom", "from"), ("ito", "to")]
     for ik, vk in pairs:
         gi = o[ik]
@@ -546,7 +580,7 @@ def check_c02_accounting(out, st, rp, r, prefix, o):
             st["dead"] = True
         return
     tp = ref.turning_points(prefix)
-    if rec == "full":
+    if rec in ("full", "probe"):
         want = Counter((float(i), v) for i, v in tp)
         got = Counter(zip(o["ifrom"], o["from"])) + Counter(zip(o["ito"], o["to"])) + Counter(zip(o["ridx"], o["res"]))
         for (i, v) in got:
